@@ -79,7 +79,7 @@ def gen_documents(ctx, n):
     out = []
     types = gen.BLOCK_TYPES
     for i in range(n):
-        t = rng.choice(["map", "layer", "class", "style", "label", "web", "legend", "scalebar"] + types)
+        t = rng.choice(["map", "layer", "class", "style", "label", "web", "legend", "scalebar", "feature"] + types)
         b = gen.gen_block(rng, t, depth=rng.choice([0, 1, 2, 2]), max_items=7)
         # duplicate a simple keyword with another value
         attrs = [it for it in b.items if it[0] == "attr"]
@@ -88,6 +88,11 @@ def gen_documents(ctx, n):
             shs = [s for s in gen.shapes(gen.raw(b.type)["properties"][it[1]], it[1]) if s[0] not in ("objlist", "object", "kv", "points")]
             if shs:
                 gen.add_item(rng, b, it[1], rng.choice(shs), 0)
+        # several POINTS blocks in one FEATURE (one recorded position per block)
+        if "points" in gen.raw(b.type)["properties"] and b.type == "feature" and rng.random() < .6:
+            for _ in range(rng.randint(2, 4)):
+                pairs = [(rng.randint(0, 50), rng.randint(0, 50)) for _ in range(rng.randint(1, 3))]
+                b.items.insert(rng.randrange(len(b.items) + 1), ("points", "points", pairs))
         # a key/value block with short keys
         if rng.random() < .4 and "metadata" in gen.raw(b.type)["properties"]:
             b.items.insert(rng.randrange(len(b.items) + 1), ("kv", "metadata", [(rng.choice(["a", "wms_t", "k1"]), gen.rstring(rng)) for _ in range(rng.randint(1, 3))]))
